@@ -44,7 +44,7 @@ def sigma(lang="en", hostile=True, big=False, small=False):
         for k in ("given", "when", "then", "and", "but"):
             out.append("  " + kw[k][-1] + "a step")
         out += ["* x", "@t1 @t2 # c", "# comment", "| a | b |", "| 1 | 2 |", "| 1 |", '"""', "    text", "free text",
-                "@t1 bad", "# language: zz", "| a", "Feature", "\t"]
+                "@t1 bad", "# language: zz", "# language:", "| a", "Feature", "\t"]
         return out
     indents = ["", "  "] + (["\t", "      "] if big else [])
     names = ["", " x"] + ([" Name with: colon", " <p>"] if big else [])
@@ -61,7 +61,7 @@ def sigma(lang="en", hostile=True, big=False, small=False):
     out += ["@t1", "  @t1 @t2 # comment", "@t1 @t2", "# comment", "  # language: %s" % lang,
             "| a |", "  | a | b |", "| 1 | 2 |", "| \\| |", "||", "| |", '"""', "  '''", "    text", "free text", "x", " "]
     if hostile:
-        out += ["@t1 bad", "@", "# language: zz", "#language:de", "| 1 | 2 | 3 |", "|", "| a", '""" trailing', "Feature", "Scenario Outline",
+        out += ["@t1 bad", "@", "# language: zz", "#language:de", "# language:", "#language: ", "# language: de (German)", "| 1 | 2 | 3 |", "|", "| a", '""" trailing', "Feature", "Scenario Outline",
                 "Examples", "Given", "*", "* x", "<x>", "@t1@t2", "\t", "|a|b|", "  text less indented"]
     # de-duplicate keeping order
     seen = set()
